@@ -8,7 +8,7 @@
    the blocks are nested less than 8 deep.  P bounds the length of every plug list a foreach walks. *)
 From Coq Require Import List NArith ZArith Bool Lia.
 From PM Require Import Base.Bytes Base.Outcome Base.Dec Gen.GenConsts Gen.GenCbuf Model.ScriptAst Model.Enqueue Model.Script Model.Device
-  Proofs.DeviceProofs Proofs.DeviceStmt Proofs.DeviceStmtG Proofs.DeviceInv Proofs.DeviceInvG.
+  Proofs.DeviceProofs Proofs.DeviceStmt Proofs.DeviceStmtG Proofs.DeviceInv Proofs.DeviceInvG Proofs.DeviceMask.
 Import ListNotations.
 
 Section Fuel.
@@ -386,5 +386,21 @@ Section Fuel.
     destruct (pa_step rmatch compress sc now d store tmo plans) as [[d1 st1 t1 pl1 e1|d1 st1 t1 e1]| | | |]; try exact Logic.I; try contradiction.
     destruct HM as [Hlt1 Hpl1].
     apply IH; [exact (tg_inv _ _ _ _ _ _ _ _ _ HI)|exact Hpl1|exact (tg_pos _ _ _ _ _ _ _ _ _ HI)|exact (conn_rel_rc _ _ _ _ (tg_conn _ _ _ _ _ _ _ _ _ HI) Hrc)|lia].
+  Qed.
+
+  (* one device's share of dev_post_poll with the model's fuel (64 * 64): no Hang when the queue handed to _process_action (after the
+     descriptor, reconnect and ping steps: pp_front) owes less than 4096 statement rounds *)
+  Theorem post_poll_one_no_hang now d store tmo pin :
+    DInvG compress d -> tmo_pos tmo -> (0 <= dv_retry_count d)%Z ->
+    (forall d3 t3 pl e12, pp_front now d tmo pin = Ok (d3, t3, pl, e12) -> DPL d3 /\ (Psi d3 < 4096)%nat) ->
+    match post_poll_one rmatch compress sc now d store tmo pin with Hang _ => False | _ => True end.
+  Proof.
+    intros I Hp Hrc Hb. rewrite pp_split.
+    destruct (pp_front_inv compress now d tmo pin I Hp Hrc) as (d3 & t3 & pl & e12 & E & I3 & S3 & P3 & R3).
+    rewrite E. destruct (Hb _ _ _ _ E) as [Hpl Hlt].
+    pose proof (process_action_no_hang (Nat.mul 64 64) now d3 store t3 pl e12 I3 Hpl P3 R3) as H.
+    assert (Hf : (Psi d3 < Nat.mul 64 64)%nat) by (change (Nat.mul 64 64) with 4096%nat; exact Hlt).
+    specialize (H Hf).
+    destruct (process_action rmatch compress sc (Nat.mul 64 64) now d3 store t3 pl e12) as [[[[[? ?] ?] ?] ?]| | | |]; try exact Logic.I. exact H.
   Qed.
 End Fuel.
